@@ -58,7 +58,7 @@ func (rg *c18rig) runStepped(ast types.MalType, script []int, r *vf.Rec) (implOu
 		return c18Cmds[cmd]
 	}
 	var out implOutcome
-	res, err, p := lx.Eval(vclock.NewPollCtx(100000), ast, scope) // the plain run needed < 3000 polls
+	res, err, p := lx.Eval(vclock.NewPollCtx(2000000), ast, scope) // the plain run needed < 3000 polls
 	lisp.Stepper = nil
 	lisp.VerifResetStepFlags()
 	for _, t := range rg.tracer.Log {
@@ -163,6 +163,14 @@ func init() {
 					model.List(append([]V{sym("mac")}, macArgs[i%na]...)...))
 			}},
 		}
+		// long tail-recursive loops (thousands of iterations): under a stepper every iteration nests host
+		// frames, the result and effects must still be those of the plain run
+		loopProgs := []string{
+			"(do (def lp (fn [n acc] (if (< n 1) acc (lp (- n 1) (+ acc 2))))) (lp 4000 0))",
+			"(do (def lp (fn [n] (if (< n 1) (t! :done) (do (if (= n 2000) (t! :half)) (lp (- n 1)))))) (lp 4000))",
+			"(do (def ev (fn [n] (if (< n 1) (t! :even) (od (- n 1))))) (def od (fn [n] (if (< n 1) (t! :odd) (ev (- n 1))))) (ev 3001))",
+		}
+		srcs = append(srcs, src{"loop", func() int64 { return int64(len(loopProgs)) }, func(i int64) V { return model.FromImpl(lx.MustRead(loopProgs[i])) }})
 		progOf := func(i int64) (V, string) {
 			for _, s := range srcs {
 				if i < s.n() {
@@ -174,7 +182,7 @@ func init() {
 		}
 		fam := &vf.Family{
 			Name:   "programs-x-scripts",
-			Bounds: "programs: all core-form programs (C01 grammar + (t! x), (t! y)) of weight <=4, all try nests (C03 grammar) of weight <=3/<=4, all template macros (C12 code grammar, weight <=3) x operand tuples of length 1-2; each run under every stepper command script of length 1..3 (quick, 84) / 1..4 (thorough, 340) over {noop, next, in, out}, applied cyclically",
+			Bounds: "programs: all core-form programs (C01 grammar + (t! x), (t! y)) of weight <=4, all try nests (C03 grammar) of weight <=3/<=4, all template macros (C12 code grammar, weight <=3) x operand tuples of length 1-2, and 3 tail-recursive loops of 3000-4000 iterations (under the four one-command scripts); each run under every stepper command script of length 1..3 (quick, 84) / 1..4 (thorough, 340) over {noop, next, in, out}, applied cyclically",
 			Setup:  setup,
 			N: func(t string) int64 {
 				tier = t
@@ -195,7 +203,11 @@ func init() {
 					return
 				}
 				lisp.Stepper = nil
-				plain, _ := rg.runImpl(ast, 3000)
+				fuel := 3000
+				if kind == "loop" {
+					fuel = 90000
+				}
+				plain, _ := rg.runImpl(ast, fuel)
 				r.Exec(1)
 				if plain.Fuel {
 					r.Note("skipped: program does not terminate (fuel)")
@@ -209,6 +221,9 @@ func init() {
 					r.NT()
 				}
 				for _, sc := range scriptsOf() {
+					if kind == "loop" && len(sc) > 1 {
+						continue // the long loops run under the four one-command scripts only
+					}
 					got, bad := rg.runStepped(ast, sc, r)
 					r.Exec(1)
 					what := kind + " program, script starting with " + c18CmdNames[sc[0]]
